@@ -12,6 +12,8 @@ import StyluaModel.Model.Run
 import Driver.DiffProto
 import Driver.UnifiedProto
 import Driver.SemiProto
+import Driver.HangProto
+import Driver.FieldProto
 import Driver.ConfigProto
 import Driver.SelectProto
 import Driver.TypeProto
@@ -100,6 +102,8 @@ def handle (line : String) : String :=
   | ["diffjson", v, ops, o, n] => Driver.DiffProto.handle v ops o n
   | ["diffuni", ops, o, n, tx] => Driver.UnifiedProto.handle ops o n tx
   | ["semi", eol, req, wr, t, sl, st] => Driver.SemiProto.handle eol req wr t sl st
+  | ["hangop", eol, ind, op, a, b, c] => Driver.HangProto.handle eol ind op a b c
+  | ["fieldkey", eol, ind, kind, a, b, c, d] => Driver.FieldProto.handle eol ind kind a b c d
   | ["config", req] => Driver.ConfigProto.handle req
   | ["stdin", check, respect, ignored, parses, same] =>
       -- abstract run: the formatter is a parameter (parses? formatted = input?)
